@@ -166,7 +166,7 @@ pub proof fn lemma_mul_cancel(a: int, b: int, c: int)
 
 pub broadcast group ring {
     lemma_range_add, lemma_range_mul, lemma_range_neg,
-    lemma_add_comm, lemma_mul_comm, lemma_add_assoc, lemma_mul_assoc, lemma_distrib,
+    lemma_add_comm, lemma_mul_comm,
     lemma_add_zero, lemma_mul_one, lemma_mul_zero, lemma_add_neg,
 }
 /// small sums do not wrap
